@@ -578,3 +578,24 @@ Proof.
   cbv zeta. split; [intros o H; simpl in H; repeat (destruct H as [<-|H]; [reflexivity|]); contradiction|].
   repeat split; vm_compute; reflexivity.
 Qed.
+
+(* ---------------------------------------------------------------- what breaks single ownership: a second Put *)
+
+(* defect 239f7b9 (fixed): table.Writer.Close ran twice and Put its block buffer twice.  Nothing in util.BufferPool
+   notices (Base/UBuffer.v, C13U_pool_double_put_refuted); in this model: the census of the buffer manager has a
+   duplicate, BInv fails, and the next two Gets hand the same array to two owners — the step function never does
+   this (single_owner is an invariant), so it is the witness of what the invariant excludes. *)
+Theorem pool_double_put_breaks_single_owner :
+  let c := cfg_pool_only in
+  let b0 := xbm (xinit 16) in
+  let '(b1, l) := bpool_get c b0 8 None in
+  let b2 := bpool_put c (bpool_put c b1 l) l in
+  let '(b3, l1) := bpool_get c b2 5 (Some 0) in
+  let '(b4, l2) := bpool_get c b3 5 (Some 0) in
+  BInv b1 /\ ~ NoDup (pool_ids (bpl b2)) /\ ~ BInv b2 /\ UBuffer.bp_count (bpl b2) l = 2 /\ l1 = l /\ l2 = l.
+Proof.
+  vm_compute. split; [|split; [|split; [|repeat split]]].
+  - constructor; vm_compute; try constructor. intros l []. intros n [].
+  - intros N. inversion N; subst. apply H1. left. reflexivity.
+  - intros [_ _ N _]. vm_compute in N. inversion N; subst. apply H1. left. reflexivity.
+Qed.
